@@ -1518,7 +1518,7 @@ fn main() {
 
     // 2. generated stream per builtin
     cx.stage = "generated";
-    let per_name = if boundary_only { 1500u64 } else { opts.tier.pick(450u64, 22000u64) };
+    let per_name = if boundary_only { 1500u64 } else { opts.tier.pick(1400u64, 22000u64) };
     for name in &names {
         let (pspec, _rspec) = b.get_specs(name).unwrap();
         let pspec = pspec.clone();
@@ -1569,7 +1569,7 @@ fn main() {
             }
         }
         // shape-first stream: the rope comes first, positions are drawn relative to its structure
-        let shape_first_cases = if boundary_only { 400u64 } else { opts.tier.pick(350u64, 12000u64) };
+        let shape_first_cases = if boundary_only { 600u64 } else { opts.tier.pick(1200u64, 12000u64) };
         for i in 0..shape_first_cases {
             let mut r = Rng::for_case(opts.seed ^ ns ^ 0x5AFE, i);
             let Some((flat, shaped)) = g.shape_first(name, &mut r) else { break };
@@ -1586,7 +1586,7 @@ fn main() {
 
     // 3. maximal binaries (lazy ropes, never flattened)
     cx.stage = "maximal";
-    let big_cases = if boundary_only { 300u64 } else { opts.tier.pick(400u64, 6000u64) };
+    let big_cases = if boundary_only { 300u64 } else { opts.tier.pick(800u64, 6000u64) };
     for i in 0..big_cases {
         let mut r = Rng::for_case(opts.seed ^ 0xB16, i);
         let (name, a) = g.big_case(&mut r);
@@ -1603,7 +1603,7 @@ fn main() {
     cx.stage = "compiled";
     if !boundary_only {
         let full = qverif::run::builtins();
-        let n_compiled = opts.tier.pick(6u64, 60u64);
+        let n_compiled = opts.tier.pick(10u64, 60u64);
         let mut to_run: Vec<(String, Arg)> = corpus.iter().map(|(_, n, a, _)| (n.clone(), a.clone())).collect();
         for name in &names {
             if name == "integer_sin" || name == "integer_cos" {
